@@ -130,7 +130,8 @@ func runOneChild(res *Result, spec ChildSpec, batch []json.RawMessage) int {
 	env := os.Environ()
 	env = append(env, "VERIF_CHILD="+kind, "VERIF_BATCH="+base+".batch", "VERIF_OUT="+base+".result", "VERIF_CASELOG="+base+".cases")
 	if p := RaceLogPrefix(); p != "" {
-		env = append(env, fmt.Sprintf("GORACE=halt_on_error=0 log_path=%s-c%d", p, id))
+		// exitcode=0: a child that observed races still ends normally; the reports are read from the log
+		env = append(env, fmt.Sprintf("GORACE=halt_on_error=0 exitcode=0 log_path=%s-c%d", p, id))
 	}
 	env = append(env, spec.Env...)
 	cmd.Env = env
